@@ -16,27 +16,43 @@ GENERATED = ["http"]
 SOURCES = ["src/allmydata/storage/http_server.py", "src/allmydata/storage/http_client.py", "src/allmydata/storage/server.py",
            "src/allmydata/storage/immutable.py"]
 DESIGN_REF = "DESIGN.md §2 C31"
-TECHNIQUE = ("Lean 4 theorems over executable models of the client (http_client.py) and server (http_server.py) marshalling: "
-             "range-read decision and client interpretation vs read_share_data, BucketWriter as cells (chunked upload = single "
-             "write, completion exactly at full coverage), read-test-write CBOR mapping round trip; three-way differential "
-             "replay of seeded histories on twin real StorageServers (direct calls vs StorageClient->HTTPServer in-process) "
-             "and on the Lean driver, comparing every result and the share files byte for byte")
-LEVEL_TEXT = ("Agreement of the HTTP path with the direct semantics proved on the model for range reads (any offset/length, "
-              "including past the end), chunked uploads (any chunking/order of consistent chunks) and the read-test-write "
-              "mapping; the model is tied to the code by the three-way replay.")
+TECHNIQUE = ("Lean 4 theorems over two executable models on one abstract storage state: the direct path (directStep: the "
+             "StorageServer calls of server.py / immutable.py, incl. the lease side effect of allocate_buckets) and the HTTP "
+             "path (client of http_client.py: request building, base64 secret headers, Range / Content-Range, the zero-length "
+             "read variant generated from the live client; authorization gate; handlers of http_server.py; client "
+             "interpretation of the answers); three-way differential replay of a fixed corpus and of seeded histories on twin "
+             "real StorageServers (direct calls vs StorageClientImmutables/Mutables/General -> HTTPServer in-process) and on "
+             "the Lean driver (clientStep through the gate, handledStep behind it, directStep), comparing every result, the "
+             "arguments read-test-write arrives with, both servers' abstract state and the share files byte for byte")
+LEVEL_TEXT = ("Proved for every state, operation and history of the model: http_path_eq_direct / http_history_eq_direct "
+              "(clientStep through client, gate and handler = directStep: same result, same state, any history length), built "
+              "from client_request_passes_gate (b64_roundtrip: the lenient decoder reads back b64encode; ASCII is UTF-8), "
+              "client_url_is_routed and http_handlers_eq_direct_partial / http_history_eq_direct_partial (the layer behind the "
+              "gate); http_read_eq_direct (range reads for every offset and length incl. 0 and past the end; missing shares: "
+              "http_read_opt_eq_direct_probe), chunked_upload_eq_single (any chunking / order / overlap of consistent chunks, "
+              "completion exactly at full coverage; write_handler_is_upStep), rtw_marshal_roundtrip, "
+              "http_allocate_eq_direct_leases / allocate_renews_existing_leases. Both models are tied to the code by the "
+              "three-way replay.")
 LEVEL_NOTE = ("Lean kernel + standard axioms; werkzeug header codecs, cbor2 and pycddl are assumed interfaces exercised by the "
-              "replay; storage container formats are abstracted (C22-C25 cover them).")
-RULE = ("a case is one client-level storage operation executed on both real paths and on the driver; distinct = distinct "
-        "(operation, arguments, result) triples; non-trivial = the server holds at least one share, upload or slot when the "
-        "operation runs")
-TRUSTED = ["lean/Tahoe/Http/{Marshal,Client,Server}.lean are hand transcriptions of http_client.py / http_server.py",
+              "replay; storage container formats are abstracted (C22-C25 cover them). The two repaired defects (04453c5 "
+              "zero-length read raised in the client; 187862a zero-length read of a missing share answered b'') are pinned "
+              "by zero_length_read_probes and by corpus histories; no open finding.")
+RULE = ("a case is one client-level storage operation executed on both real paths and on the driver; the fixed corpus (one "
+        "minimal history per seeded mechanism and per repaired defect) runs first and alone under VERIF_CORPUS_ONLY=1; "
+        "distinct = distinct (operation, arguments, result) triples; non-trivial = the server holds at least one share, "
+        "upload or slot when the operation runs")
+TRUSTED = ["lean/Tahoe/Http/{Marshal,Client,Server,Direct}.lean are hand transcriptions of http_client.py / http_server.py / "
+           "server.py; that they are is correspondence only (the three-way replay)",
            "the direct path closes a BucketWriter as soon as write() reports completion (what the Foolscap client does "
            "explicitly and the HTTP server does implicitly)",
            "harness/props/c30.py Stack (StubTreq, frozen clock, cputhreadpool disabled); harness/shims RangeMap"]
-ASSUMPTIONS = ["clients use the upload secret / write enabler they created the upload / slot with (authorization is C30)",
-               "at most 30 test vectors, 30 read vectors and 256 shares per read-test-write (the CDDL schema's documented bounds; "
-               "the direct call has none)",
+ASSUMPTIONS = ["hypotheses of the main theorems, each with an example of what the code does outside it: OpOk — clients use the "
+               "upload secret they created the upload with (401 otherwise; authorization is C30) and a read-test-write stays "
+               "within the CDDL bounds of 30 test vectors, 30 read vectors, 256 shares (400 otherwise; the direct call has no "
+               "bound); WireOk — secrets are non-empty and lease secrets 32 bytes long (400 otherwise), the storage index is "
+               "rendered canonically (si_b2a), share numbers are below 256 (decimal round trip proved for those)",
                "chunks and bodies <= 64 KiB; mutable shares below MAX_SIZE; disk not full; clock frozen (lease expiry equal on both)",
+               "empty chunks are refused on both paths (werkzeug ContentRange / RangeMap.set) and are outside chunked_upload_eq_single",
                "werkzeug Range/ContentRange header codecs, cbor2 and pycddl behave as sampled"]
 
 import os
